@@ -111,7 +111,31 @@ def file_cases(thorough, seed):
         if fmt == "uclchem":
             c.composition.update({c.canon(n.upper() if n != "e-" else "E-"): v for n, v in pool.items()})
         out.append(c)
+    out.append(_krome_blocks(thorough, seed))
     return out
+
+
+def _krome_blocks(thorough, seed):
+    """KROME: the same balanced reactions under several @format directives that have the *same number of columns* but
+    arrange reactant and product columns differently (2R+3P, 3R+2P, 1R+4P), alternating, so that every directive is
+    followed by lines that use exactly the columns whose role it changed"""
+    pool = POOLS["HCO"]
+    rnd = random.Random(1301 + seed)
+    layouts = [(2, 3), (3, 2), (1, 4)]
+    rs = balanced("HCO", 3, 4, 10**9, seed)
+    per = 5 if not thorough else 25
+    lines, k = [], 0
+    for rep in range(2):  # each layout occurs twice: switching back is a change of directive as well
+        for nr, np_ in layouts:
+            fit = [x for x in rs if len(x[0]) == nr and len(x[1]) == np_] or [x for x in rs if len(x[0]) <= nr and len(x[1]) <= np_]
+            lines.append("@format:idx," + ",".join(["R"] * nr + ["P"] * np_) + ",Tmin,Tmax,rate")
+            for r, p_ in rnd.sample(fit, min(per, len(fit))):
+                k += 1
+                cols = list(r) + [""] * (nr - len(r)) + list(p_) + [""] * (np_ - len(p_))
+                lines.append(",".join([str(k), *cols, "NONE", "NONE", f"{k}.0d-10"]))
+    c = Case("BALF-krome-blocks", {"files": [{"name": "bal.krome", "content": "\n".join(lines) + "\n"}], "network": {"filelist": "bal.krome", "fileformats": "krome"}}, tags={"balanced"})
+    c.composition = {c.canon(n): v for n, v in pool.items()}
+    return c
 
 
 def cases(thorough, seed):
